@@ -331,3 +331,8 @@ PROPS['C16']['text'] += ' R7 also imports C04.R4 (a cloned cell keeps family and
 PROPS['C19']['text'] += ' R5: the declared parameter ranges the step is scaled by (C08.R3, imported).'
 PROPS['C18']['text'] += ' R2 also: every non-constant factor path of the builder that admits a given ratio yields 1 - ratio (the ratio has precedence over kt_finish).'
 
+# ---- round 9 ----
+PROPS['C10']['text'] += ' R11: every replica starts from a clone of the start state, so the Clone impls of the state types keep every field (C09.R3, imported).'
+PROPS['C06']['text'] += (' R5 also: inside the proposal loop the compared score never falls back to a value computed before the loop. R3 also: '
+                         'reset_value writes the cell on every feasible path for witness pairs (cell, captured value) down to one unit in the last place.')
+PROPS['C03']['text'] += ' R2 also: the inner sequence of the in-cell pair loop is not a partly consumed iterator shared between outer items.'
